@@ -51,6 +51,13 @@ def strings(cfg, rng):
     for i, s in enumerate(corp):
         if cfg.mine(i):
             yield "corpus", s
+    # letter runs around the one function name: other cases, prefixes, extensions (all of them are
+    # products of one-letter variables, case-sensitive)
+    near = ["SGN(x)", "Sgn(x) + 1", "sGn", "2sgN^2", "sgN(4)", "SGN", "sg(x)", "sgnn(x)", "xsgn(x)", "sgnx", "s gn(x)", "sgn (x)", "sign(x)", "Sgn", "sgnSGN", "sgn(SGN)",
+            "X + x", "xX", "aA * Aa", "Z^z", "sgn(X) + sgn(x)"]
+    for i, s in enumerate(near + [t.swapcase() for t in corp if "sgn" in t][:20]):
+        if cfg.mine(i):
+            yield "near-function-name", s
     # generator output (W2)
     from mathy_core import problems as P
 
